@@ -101,8 +101,8 @@ PROPS = {
     },
     "C04": {
         "streams": ["unpack"],
-        "theorems": "C04_lexical (accepted targets are lexically inside dst), C04_refuted (the physical statement is false of model and code: known finding KF-C04-1), C04_links_never_written_through",
-        "assumptions": _FS_ASSUME,
+        "theorems": "C04_links_resolve_inside (the physical statement, for every archive whose link targets have no '..' after a name - ../../x/y, plain names, absolute targets, '.' and empty segments anywhere -: whatever the entries, their order and repetitions, under either privilege, whether Unpack succeeds or stops, every path from inside dst - in particular every link left there, through any number of other links up to the kernel's limit - resolves inside dst; the destination may hold links of the same kind beforehand; FS/Confined.v walk_confined by induction on the link budget and the remaining components, Slug/UnpackLinks.v), C04_confined_resolution (the underlying fact about path resolution, any file system), C04_refuted (with '..' after a name the physical statement is false of model and code: known finding KF-C04-1; the witness is exactly outside the theorem's hypothesis: C04_links_instance), C04_lexical (accepted targets are lexically inside dst), C04_links_never_written_through, C04_empty_destination_is_confined",
+        "assumptions": _FS_ASSUME + ["C04_links_resolve_inside is stated for an empty allow list (with an allow list the oracle accepts destinations the caller allow-listed, lexically or physically); the known-finding signature of KF-C04-1 now requires a link target with '..' after a name in the archive, so an escape outside that shape is reported as a violation"],
     },
     "C15": {
         "streams": ["unpack"],
